@@ -77,6 +77,33 @@ def _run_harness(hb, d, seed, n, only=None, extra=()):
     return True, ""
 
 
+def pretouch_outcome_sets(hb, d, seed, n, cid, extra, reps=48):
+    """Pretouch keeps one of two (type, pointer-value) requests per level, chosen by Go map iteration order (KF-C12-pretouch-pv-order):
+    the bytes after Pretouch are then not a function of the input.  Returns the set of distinct outcomes of every Pretouch scenario of
+    one case over `reps` repetitions, per back end: ({key: set(fields)}, {key: set(fields)}) for (JIT, interpreter)."""
+    import subprocess
+    res = []
+    for who, env in (("jit", c.GOENV), ("vm", VM_ENV)):
+        outp = os.path.join(d, "qs.%s.%s" % (who, cid))
+        cmd = [hb, "-seed", str(seed), "-n", str(n), "-only", cid, "-qrep", str(reps), "-out", outp] + list(extra)
+        sets = {}
+        try:
+            pr = subprocess.run(cmd, env=dict(env), stdout=subprocess.PIPE, stderr=subprocess.STDOUT, timeout=600)
+            if pr.returncode == 0:
+                for line in open(outp, errors="replace"):
+                    f = line.rstrip("\n").split("\t")
+                    if f[0] == "QS" and f[1] == cid:
+                        sets.setdefault("Q:" + f[2], set()).add(tuple(f[3:]))
+        except (subprocess.TimeoutExpired, OSError):
+            sets = {}          # no sets: the caller reports the difference of the first run as it is
+        try:
+            os.remove(outp)
+        except OSError:
+            pass
+        res.append(sets)
+    return res[0], res[1]
+
+
 def run_model(mexe, d, timeout=2400):
     import time
     t0 = time.time()
